@@ -65,4 +65,10 @@ decreases $IT.v@.len() - $IT.pos@
             // the recompiled matcher comes from the directory's own builder: still rooted at that directory
             trie_ok(final(self).ignores.m@), // OBL:C03+C14.recompile.matcher_stays_rooted_at_its_own_directory
             final(self).origin == old(self).origin,
+            // a directory without a builder (a finished filter, an unknown directory) is left alone, and so is everything after a glob error
+            !has_builder(old(self).ignores.m@, applies_in_of(old(self).origin, file)) || r is Err ==> final(self).ignores.m@ == old(self).ignores.m@, // OBL:C03.recompile.nothing_changes_without_a_builder_or_on_error
+            !has_builder(old(self).ignores.m@, applies_in_of(old(self).origin, file)) ==> r is Ok,
+            // otherwise the directory's matcher now holds every line its builder holds, the node KEEPS that builder (so the next file or glob list added
+            // for the same directory is not silently dropped), and no other directory's node is touched
+            has_builder(old(self).ignores.m@, applies_in_of(old(self).origin, file)) && r is Ok ==> recompiled_node(old(self).ignores.m@, final(self).ignores.m@, applies_in_of(old(self).origin, file)), // OBL:C03+C14.recompile.the_directory_keeps_its_builder_and_its_matcher_holds_all_its_lines
 //@ end
